@@ -22,3 +22,10 @@ package utils
 //@   pure
 //@ func IsStreamingPayload
 //@   pure
+
+// The request that is re-signed for comparison is rebuilt from EVERY header line of the incoming
+// request (a signed header that occurs twice must contribute both values).
+//@ func createHttpRequestFromCtx
+//@   at-return {C02} [every-header-line-is-visited] when err == nil :: ensures called("fasthttp.RequestHeader.VisitAll")
+//@ func createPresignedHttpRequestFromCtx
+//@   at-return {C02} [every-header-line-is-visited] when err == nil :: ensures called("fasthttp.RequestHeader.VisitAll")
